@@ -19,6 +19,9 @@ def dispatch(prop):
     if prop in ("C03", "C06", "C11", "C12"):
         import quantities
         return lambda tier, seed: quantities.run_quant(prop, tier, seed)
+    if prop == "C10":
+        import temperature
+        return temperature.run_c10
     if prop == "C08":
         import conversions
         return conversions.run_c08
